@@ -136,7 +136,11 @@ func (b *bastionClient) Update(ctx context.Context, logID string, oldSize uint64
 	body += string(newCP)
 
 	klog.V(1).Infof("sending:\n%s", body)
-	resp, err := b.httpClient.Post(b.url, "", bytes.NewReader([]byte(body)))
+	req, err := http.NewRequestWithContext(ctx, http.MethodPost, b.url, bytes.NewReader([]byte(body)))
+	if err != nil {
+		return nil, err
+	}
+	resp, err := b.httpClient.Do(req)
 	if err != nil {
 		return nil, err
 	}
